@@ -267,3 +267,57 @@ def dispatcher_runs(r1: int, k1: int, g: bool, r2: int, k2: int, x0: bool, x1: b
         for j, i in enumerate(want[k]):
             ok = ok and got[j].kind == k and got[j].line is lines[i]
     return done(ok)
+
+
+# ---------------------------------------------------------------------------------------------
+# file-scale sections: hundreds of lines of one kind before a line several kinds accept
+# ---------------------------------------------------------------------------------------------
+LONG_N = [5, 63, 64, 65, 127, 128, 129, 255, 256, 257, 511, 512, 1000, 1024, 4097]
+
+
+def dispatcher_long(si: int, k1: int, x0: bool, x1: bool, x2: bool, tail: int) -> bool:
+    """
+    pre: 0 <= si < len(LONG_N) and 0 <= k1 <= 2 and 0 <= tail <= 2
+    post: _
+    """
+    # LONG_N[si] lines only kind k1 accepts, then 1 + tail lines accepted by the kinds {x0, x1, x2}:
+    # however long the section, each line goes to the first accepting kind of the caller's order
+    n1 = H.pick(LONG_N, si)
+    k1c = H.pick([0, 1, 2], k1)
+    nt = H.pick([1, 2, 3], tail)
+    with H.untraced():
+        _RUN[0] += 1
+        lines = ["L%d of long run %d" % (i, _RUN[0]) for i in range(n1 + nt)]
+        index = {ln: i for i, ln in enumerate(lines)}
+    xs = [x0, x1, x2]
+
+    def mk(k):
+        class Kind:
+            @classmethod
+            def from_chart_line(cls, line):
+                i = index[line]
+                if (i < n1 and k == k1c) or (i >= n1 and xs[k]):
+                    return _Datum(k, line)
+                raise RegexNotMatchError("stub-regex-%d" % k, line)
+        Kind.__qualname__ = "Kind%d" % k
+        return Kind
+    xs = [True if x else False for x in xs]         # realised here: the dispatch itself runs natively
+    kinds = [mk(k) for k in range(3)]
+    log = H.CountingLogger()
+    with H.untraced():
+        with H.patched((T, "logger", log)):
+            m = T.parse_data_from_chart_lines(tuple(kinds), iter(lines))
+    first = None
+    for k in range(3):
+        if xs[k] and first is None:
+            first = k
+    ok = True
+    for k in range(3):
+        want = (n1 if k == k1c else 0) + (nt if first == k else 0)
+        ok = ok and len(m[kinds[k]]) == want
+    ok = ok and len(log.warnings) == (nt if first is None else 0)
+    if ok and first is not None:
+        got = m[kinds[first]]
+        for j in range(nt):
+            ok = ok and got[len(got) - nt + j].line is lines[n1 + j]
+    return done(ok)
